@@ -54,6 +54,10 @@ def run_property(prop, tier, repo="/repo", quiet=False):
             insts.append(engine.Inst(rid, "rule-missing", False, fact="rule %s is not implemented" % rid, kind="machinery error"))
             continue
         res = engine.run_rule(rid, ctx)
+        flt = spec.get("filters", {}).get(rid)
+        if flt:
+            import re as _re
+            res = [r for r in res if _re.search(flt, r.key) or r.kind in ("anchor lost", "machinery error")]
         rules_run.append({"rule": rid, "instances": len(res), "holding": len([r for r in res if r.ok]),
                           "floor": engine.RULES[rid][1]["floor"], "doc": engine.RULES[rid][1]["doc"][:400]})
         insts += res
